@@ -529,6 +529,8 @@ def write_evidence(prop, tier, root_seed, scn, agg, wall, known_seen,
             "sampling, not enumeration: a clean batch is evidence, not proof",
         ] + list(getattr(scn, "ASSUMPTIONS", [])),
     }
+    if os.environ.get("VERIF_NOEVIDENCE"):
+        return      # development aid (mutant trials): keep committed evidence
     d = os.path.join(VERIF, "evidence")
     os.makedirs(d, exist_ok=True)
     with open(os.path.join(d, prop + ".json"), "w") as f:
